@@ -53,31 +53,35 @@ def Undo.cons (c : Nat) : Undo → Undo
 
 /-- The `re.finditer` loop: `kinds` maps the letter after the backslash to the number of
 digits (`[(120, 2)]` or `[(120, 2), (117, 4), (85, 8)]`); the first argument counts the
-characters of a match that are still to be skipped. -/
-def undoGo (cls : List (Nat × Nat)) (kinds : List (Nat × Nat)) : Nat → Text → Undo
-  | _, [] => .ok []
-  | skip + 1, _ :: r => undoGo cls kinds skip r
-  | 0, c :: r =>
+characters of a match that are still to be skipped.  The alternative `\\\\` of the regular
+expression comes first: an escaped backslash is copied and nothing after it is an escape. -/
+def undoGo (cls : List (Nat × Nat)) (kinds : List (Nat × Nat)) : Bool → Nat → Text → Undo
+  | _, _, [] => .ok []
+  | true, _, c :: r => (undoGo cls kinds false 0 r).cons c      -- the second backslash of `\\\\`
+  | false, skip + 1, _ :: r => undoGo cls kinds false skip r
+  | false, 0, c :: r =>
     if c = 92 then
       match r with
       | l :: r' =>
+        if l = 92 then (undoGo cls kinds true 0 r).cons 92   -- an escaped backslash is copied
+        else
         match lookup l kinds with
         | some n =>
           match takeClass cls n r' with
           | some ds =>
             match hexVal ds with
-            | some v => if v < 0x110000 then (undoGo cls kinds (n + 1) r).cons v else .valueError
+            | some v => if v < 0x110000 then (undoGo cls kinds false (n + 1) r).cons v else .valueError
             | none => .valueError
-          | none => (undoGo cls kinds 0 r).cons c
-        | none => (undoGo cls kinds 0 r).cons c
+          | none => (undoGo cls kinds false 0 r).cons c
+        | none => (undoGo cls kinds false 0 r).cons c
       | [] => .ok [c]
-    else (undoGo cls kinds 0 r).cons c
+    else (undoGo cls kinds false 0 r).cons c
 
 /-- `_undo_escaping_backslash_x_in_pattern` -/
-def undoX (cls : List (Nat × Nat)) (t : Text) : Undo := undoGo cls [(120, 2)] 0 t
+def undoX (cls : List (Nat × Nat)) (t : Text) : Undo := undoGo cls [(120, 2)] false 0 t
 
 /-- `_undo_escaping_backslash_x_u_and_U_in_pattern` -/
-def undoXuU (cls : List (Nat × Nat)) (t : Text) : Undo := undoGo cls [(120, 2), (117, 4), (85, 8)] 0 t
+def undoXuU (cls : List (Nat × Nat)) (t : Text) : Undo := undoGo cls [(120, 2), (117, 4), (85, 8)] false 0 t
 
 /-! ## `_translate_pattern` -/
 
